@@ -3,6 +3,11 @@
 
 package gocql
 
+import (
+	"hash/fnv"
+	"sort"
+)
+
 // VerifHook, when set, is called at the yield points of the driver with the
 // name of the point, the connection (may be nil) and the stream id (0 if none).
 // It exists only in builds with the "verif" tag and is used by the
@@ -13,4 +18,28 @@ func verifYield(point string, c *Conn, stream int) {
 	if h := VerifHook; h != nil {
 		h(point, c, stream)
 	}
+}
+
+// verifHostSalt is set per simulated run (VerifReseed).
+var verifHostSalt uint64
+
+// verifOrderHosts puts a list of hosts that was collected by iterating over a map into
+// an order that depends only on the run's seed and on the hosts themselves (a hash of
+// salt, connect address and host id), so that a simulated run does not depend on Go's
+// randomised map iteration and different runs still see different orders. Only in
+// builds with the "verif" tag.
+func verifOrderHosts(hosts []*HostInfo) {
+	key := func(h *HostInfo) uint64 {
+		f := fnv.New64a()
+		var b [8]byte
+		for i := range b {
+			b[i] = byte(verifHostSalt >> (8 * uint(i)))
+		}
+		f.Write(b[:])
+		f.Write([]byte(h.ConnectAddress().String()))
+		f.Write([]byte{0})
+		f.Write([]byte(h.HostID()))
+		return f.Sum64()
+	}
+	sort.SliceStable(hosts, func(i, j int) bool { return key(hosts[i]) < key(hosts[j]) })
 }
